@@ -380,8 +380,15 @@ func eventStamp(e *forwardprotocol.EventEntry) string {
 
 // allDelivered reports whether every fully read, unfiltered record is inside a message the upstream acknowledged
 func (r *aRun) allDelivered() bool {
+	if r.srv2 != nil && !r.srv2.healthyOnly && !r.allDeliveredTo(r.srv2) {
+		return false
+	}
+	return r.allDeliveredTo(r.srv)
+}
+
+func (r *aRun) allDeliveredTo(srv *aServer) bool {
 	acked := map[string]bool{}
-	for _, m := range r.srv.msgs {
+	for _, m := range srv.msgs {
 		if !m.AckSent {
 			continue
 		}
